@@ -446,7 +446,7 @@ class C12(ModelCheck):
     assumptions = ["what happens to the other names of a function whose declaration conflicts with another context is not specified and not generated (conflicts use the rejected name only)"]
 
     def n_random(self, tier):
-        return {"quick": 960, "thorough": 30000}[tier]
+        return {"quick": 960, "thorough": 16000}[tier]
 
     def gen(self, R):
         return gen(R)
